@@ -81,13 +81,23 @@ def containers(**kw):
         lambda l: ("C", [list(p) for p in l]))
 
 
-def build(m):
+class SubStr(str):
+    """keys need not be exact str objects (the library itself uses str subclasses as keys, e.g. for flag names)"""
+
+
+def build(m, keycls=None):
     k = kind(m)
     if k == "C":
         c = Container()
         for key, v in m[1]:
-            dict.__setitem__(c, key, build(v))
+            dict.__setitem__(c, keycls(key) if keycls is not None and isinstance(key, str) else key, build(v, keycls))
         return c
+    if keycls is not None and k in ("D", "L", "LC"):
+        if k == "D":
+            return {key: build(v, keycls) for key, v in m[1]}
+        if k == "L":
+            return [build(v, keycls) for v in m[1]]
+        return ListContainer(build(v, keycls) for v in m[1])
     if k == "D":
         return {key: build(v) for key, v in m[1]}
     if k == "L":
@@ -255,6 +265,15 @@ def eq_oracle(ctx):
             ne = call(lambda: X != Y)
             if not ne.ok or bool(ne.value) != (not want):
                 return Failure("C20/ne/negation", "%s != %s is %r but == is %r" % (short(X), short(Y), ne, want))
+        # the same relation when the keys are instances of a str subclass, on either or both sides
+        for (x, X), (y, Y) in (((a, A), (b, B)), ((b, B), (c, C)), ((a, A), (c, C))):
+            want = meq(x, y)
+            X2, Y2 = build(x, SubStr), build(y, SubStr)
+            for l, r_, tag in ((X2, Y2, "both"), (X2, Y, "left"), (X, Y2, "right")):
+                got = safe_eq(l, r_)
+                ne = call(lambda: l != r_)
+                if not got.ok or bool(got.value) != want or not ne.ok or bool(ne.value) != (not want):
+                    return Failure("C20/eq/str-subclass-keys", "with str-subclass keys (%s): %s == %s is %r / != is %r, model says %r" % (tag, short(l), short(r_), got, ne, want))
         for x, X in ((a, A), (b, B), (c, C)):
             r = safe_eq(X, X)
             r2 = safe_eq(X, build(x))
